@@ -183,8 +183,19 @@ pub fn lock_binding() -> &'static [(&'static str, LockKind); 4] {
     })
 }
 
+/// Does the library under test have the hook point in front of `update_config`'s lock?
+pub fn has_update_config_hook() -> bool {
+    LIB_RS.contains("verif::point(\"update_config:lock\"")
+}
+
 fn wait_of(id: &'static str) -> Wait {
     match id {
+        // `update_config` takes the worker lock with a blocking `lock()`
+        "update_config:lock" => match lock_kind_after(LIB_RS, "update_config:lock") {
+            Some(LockKind::TimedTry) => Wait::Yield,
+            Some(LockKind::Try) => Wait::None,
+            _ => Wait::WorkerLock,
+        },
         // Drop waits a full second for the lock: blocking for every purpose of the model
         "drop:lock" => Wait::WorkerLock,
         "tick:lock" | "tick:try_lock" | "tick:retry_lock" => {
